@@ -59,14 +59,18 @@ def base_states(rng):
     """(declared/undeclared) x (with/without rates) x (with/without data)"""
     out = []
     for npts, nch in ((0, 0), (2, 0), (0, 2), (3, 2), (1, 1)):
-        for rates in ('none', 'point', 'analog', 'both'):
+        for rates in ('none', 'point', 'analog', 'both', 'both-low'):
             for nfr in (0, 2):
                 b = apihist.Builder(rng, snap=False); sh = b.sh
                 for n in apihist.uniq_names(rng, npts): b.declare_point(n); sh.pts.append(trim(n))
                 for n in apihist.uniq_names(rng, nch, b'c'): b.declare_analog(n); sh.chans.append(trim(n))
-                pr, ar = rng.choice(apihist.RATES + [(0.5, 0.5), (0.25, 0.75), (0.999, 1.998), (1e-3, 2e-3), (214748.0, 429496.0)])
-                if rates in ('point', 'both'): b.set_rate(b'POINT', pr)
-                if rates in ('analog', 'both'): b.set_rate(b'ANALOG', ar)
+                pr, ar = rng.choice(apihist.RATES + [(0.5, 0.5), (0.25, 0.75), (0.999, 1.998), (1e-3, 2e-3), (214748.0, 429496.0),
+                                                  (100.0, 50.0), (120.0, 60.0), (2.0, 1.0), (100.0, 99.0), (3.0, 2.0)])   # ratio below 1: no sub-frame announced
+                if rates == 'both-low':      # the analog rate is below the point rate: the rates announce NO sub-frame
+                    if not nch or nfr: continue
+                    pr, ar = rng.choice([(100.0, 50.0), (120.0, 60.0), (2.0, 1.0), (100.0, 99.0), (3.0, 2.0)])
+                if rates in ('point', 'both', 'both-low'): b.set_rate(b'POINT', pr)
+                if rates in ('analog', 'both', 'both-low'): b.set_rate(b'ANALOG', ar)
                 ok_data = (rates == 'both') or (rates == 'point' and not nch) or (rates == 'analog' and not npts) or (npts == 0 and nch == 0)
                 if nfr and ok_data:
                     for _ in range(nfr):
@@ -123,6 +127,35 @@ def run(rep, work, rng, tier):
             for ti, (kind, line) in enumerate(tests):
                 cases.append(('s%d_%d_%d' % (_, bi, ti), b.lines + ['snap 0', line]))
                 kinds[kind] = kinds.get(kind, 0) + 1
+    # RELABELLED data sets: POINT:LABELS / ANALOG:LABELS rewritten through parameter() after the data exist (same count, other
+    # names): "a name already exists" is about the declared labels, whatever the stored points are called
+    for ri in range(3 * reps):
+        npts = rng.choice([2, 3]); nch = rng.choice([0, 2])
+        b = apihist.Builder(rng, snap=False); sh = b.sh
+        for n in apihist.uniq_names(rng, npts): b.declare_point(n); sh.pts.append(trim(n))
+        for n in apihist.uniq_names(rng, nch, b'c'): b.declare_analog(n); sh.chans.append(trim(n))
+        pr, ar = rng.choice(apihist.RATES); b.set_rate(b'POINT', pr)
+        if nch: b.set_rate(b'ANALOG', ar)
+        nf = rng.choice([1, 2, 3])
+        for _k in range(nf): b.frame(rand_lit(rng, sh.pts, sh.chans, sh.expected_nsub() if sh.chans else 0), '-')
+        newl = [b'RL%d' % i for i in range(npts)]
+        b.raw('P.new %s x' % hx(b'LABELS')); b.raw('P.set S 1 %d %d %s' % (npts, npts, ' '.join(hx(x) for x in newl)))
+        b.emit('param 0 ' + hx(b'POINT'), 'relabel')
+        tests = []
+        for nm, kind in ((newl[0], 'pointcol:new-label'), (newl[-1], 'pointcol:new-label-last'), (sh.pts[0], 'pointcol:stored-name-not-a-label'), (b'fresh_q', 'pointcol:fresh')):
+            tests.append((kind, 'pointcol 0 %d %s' % (nf, ' '.join(rand_lit(rng, [nm], [], 0).text() for _k in range(nf)))))
+            tests.append((kind.replace('pointcol', 'point'), 'point 0 ' + hx(nm)))
+        if nch:
+            newc = [b'RC%d' % i for i in range(nch)]
+            b.raw('P.new %s x' % hx(b'LABELS')); b.raw('P.set S 1 %d %d %s' % (nch, nch, ' '.join(hx(x) for x in newc)))
+            b.emit('param 0 ' + hx(b'ANALOG'), 'relabel')
+            ns = sh.expected_nsub()
+            for nm, kind in ((newc[0], 'analogcol:new-label'), (sh.chans[0], 'analogcol:stored-name-not-a-label'), (b'fresh_c', 'analogcol:fresh')):
+                tests.append((kind, 'analogcol 0 %d %s' % (nf, ' '.join(rand_lit(rng, [], [nm], ns).text() for _k in range(nf)))))
+                tests.append((kind.replace('analogcol', 'analog'), 'analog 0 ' + hx(nm)))
+        for ti, (kind, line) in enumerate(tests):
+            cases.append(('rl%d_%d' % (ri, ti), b.lines + ['snap 0', line]))
+            kinds[kind] = kinds.get(kind, 0) + 1
     (c, _), (m, _), nd = common.correspondence(rep, work, cases, select=sel, label='guards (accept/refuse and exception class)')
     bad = 0; verdicts = {}
     for cid, lines in cases:
